@@ -425,3 +425,105 @@ def runner_transparency(idx, module_suffix="torch_tqdm"):
         else:
             out.append((f, True, f"every exit of the condition wrapper returns the caller's condition on the state ({len(rets)} exit(s))", g.node))
     return out
+
+
+def _reduction(c):
+    """('any'|'all', argument) for xnp.any(e) / xnp.all(e) / e.any() / e.all() / any(e) / all(e)"""
+    if not isinstance(c, ast.Call):
+        return None
+    f = c.func
+    name = f.attr if isinstance(f, ast.Attribute) else (f.id if isinstance(f, ast.Name) else None)
+    if name not in ("any", "all"):
+        return None
+    if c.args:
+        return name, c.args[0]
+    if isinstance(f, ast.Attribute):
+        return name, f.value
+    return None
+
+
+def batch_quantifier(idx, loop, tol_names=None):
+    """How does the continue-condition of a while loop quantify over the columns of a batched state?  The loop must continue
+    while ANY column is still active (its residual / new norm exceeds the threshold) and stop only when every column is done.
+    -> (ok, text): ok None when the condition has no reduction over a per-column comparison that could be read.
+    The threshold side of a comparison is the side that depends on the tolerance (second argument of while_loop_winfo, or `tol_names`)."""
+    cond = loop.cond
+    if cond is None:
+        return None, "no condition function"
+    test_fn = cond
+    rets = return_exprs(cond)
+    if not rets:
+        return None, "condition returns nothing"
+    e = inline_expr(idx, cond, rets[0])
+    callee, _ = expand_call(idx, cond, e) if not isinstance(cond, ast.Lambda) else (None, None)
+    if callee is not None:
+        test_fn = callee
+        rets = return_exprs(callee)
+        e = inline_expr(idx, callee, rets[0]) if rets else None
+        if e is None:
+            return None, "condition helper returns nothing"
+    tols = set(tol_names or ())
+    if loop.winfo_call is not None:
+        b = df.bind_call(loop.winfo_call, ["errorfn", "tol", "max_iters"])
+        if b.get("tol") is not None:
+            tols |= {n.id for n in ast.walk(b["tol"]) if isinstance(n, ast.Name)}
+    tols |= {p for p in fn_params(test_fn) if p in ("tol", "rtol", "atol")} if not tols else set()
+
+    def names(x):
+        return {n.id for n in ast.walk(x) if isinstance(n, ast.Name)}
+
+    def pol(x):
+        """'active' (the column still needs work) / 'done' / None for a per-column boolean expression"""
+        if isinstance(x, ast.UnaryOp) and isinstance(x.op, (ast.Invert, ast.Not)):
+            p = pol(x.operand)
+            return {"active": "done", "done": "active"}.get(p)
+        if isinstance(x, ast.Compare) and len(x.ops) == 1:
+            l, r = x.left, x.comparators[0]
+            lt, rt = bool(names(l) & tols), bool(names(r) & tols)
+            if lt == rt:
+                return None
+            big = isinstance(x.ops[0], (ast.Gt, ast.GtE))
+            small = isinstance(x.ops[0], (ast.Lt, ast.LtE))
+            if not (big or small):
+                return None
+            # quantity > threshold: active; quantity < threshold: done (mirrored when the threshold is written on the left)
+            if rt:
+                return "active" if big else "done"
+            return "done" if big else "active"
+        parts = disjuncts(x)
+        if len(parts) > 1:
+            ps = [pol(p) for p in parts]
+            known = {p for p in ps if p}
+            return next(iter(known)) if len(known) == 1 else None  # `| (i <= 1)` first-iteration guards carry no polarity
+        parts = conjuncts(x)
+        if len(parts) > 1:
+            ps = [pol(p) for p in parts]
+            known = {p for p in ps if p}
+            return next(iter(known)) if len(known) == 1 else None
+        return None
+
+    def sem(x):
+        """(quantifier, polarity) of a scalar boolean built from a reduction"""
+        if isinstance(x, ast.UnaryOp) and isinstance(x.op, (ast.Invert, ast.Not)):
+            s = sem(x.operand)
+            if s is None or s[1] is None:
+                return s
+            return ({"any": "all", "all": "any"}[s[0]], {"active": "done", "done": "active"}[s[1]])
+        r = _reduction(x)
+        if r is not None:
+            arg = inline_expr(idx, test_fn, r[1]) if not isinstance(test_fn, ast.Lambda) else r[1]
+            return (r[0], pol(arg))
+        return None
+
+    found = [(c, sem(c)) for c in conjuncts(e)]
+    found = [(c, s) for c, s in found if s is not None]
+    if not found:
+        return None, "no any/all reduction among the conjuncts of the continue-condition"
+    c, s = found[0]
+    txt = ast.unparse(c)[:90]
+    if s[1] is None:
+        return None, f"`{txt}`: the reduced comparison does not compare a state quantity with the tolerance"
+    if s == ("any", "active"):
+        return True, f"continues while `{txt}`: any column still above its threshold keeps the shared iteration going"
+    return False, (f"continues while `{txt}`, i.e. {'only while EVERY column is still above' if s == ('all', 'active') else 'while some column is already below'} the threshold: "
+                   "the shared iteration stops as soon as one column of a batch has converged or broken down, truncating the factorisation of the others")
